@@ -16,7 +16,7 @@ func TestCheck(t *testing.T) {
 		"each run in three clean-up orders (every clean-up runs before the next synchronisation / after it / seeded per hook point), plus 10 directed scenarios x both orders; " +
 		"after every synchronisation all four lookups are issued for every key of the pools and never-existing ones; " +
 		"distinct = (clean-up order, full-only flag, multiset of change kinds); non-trivial = at least one background clean-up was triggered in the history. " +
-		"concurrent: rounds of 6 lookup goroutines against a synchroniser, decided per key by interval rule + porcupine. " +
+		"every refresh's request sync time is checked against the protocol (zero or the sync time of the last successful response; an incremental refresh must carry the latter), one seeded synchronisation failure in a third of the histories, 5 directed failed-full-sync scenarios; the access settings (Config() and IsBlocked probes) of every looked-up profile are compared with the synchronised variant, 4 directed scenarios change only subnets / only ASNs / only name rules in incremental syncs. concurrent: rounds of 6 lookup goroutines against a synchroniser, decided per key by interval rule + porcupine. " +
 		"fields: every variant of every profile/device setting through store+load (distinct = combination of variants). " +
 		"atomic: write failures (RLIMIT_FSIZE/EFBIG at 8 limits x 2 initial versions, strace-injected ENOSPC at the N-th write) in a child storing over an existing good cache; SIGKILL of a child that stores two different caches alternately (random times and strace-injected at rename/write/fsync)")
 	r.Assume("a synchronisation response carries every changed profile together with all its devices (backend protocol shape); two live devices never own the same key")
@@ -56,6 +56,15 @@ func TestCheck(t *testing.T) {
 		r.Require("conc_lookups_overlapping_sync", 100)
 		r.Require("porcupine_ok", 30)
 		r.Require("natural_order_lookups", 1000)
+		r.Require("sync_requests_checked", 1000)
+		r.Require("syncs_failed_full", 8)
+		r.Require("sync_requests_incremental_after_failed_full", 10)
+		r.Require("incremental_after_failed_full_with_deletion", 4)
+		r.Require("access_settings_compared", 200)
+		r.Require("access_settings_probed", 50)
+		r.Require("access_change_in_incremental_sync:subnets-only", 4)
+		r.Require("access_change_in_incremental_sync:asns-only", 4)
+		r.Require("access_change_in_incremental_sync:names-only", 4)
 		r.Require("failed_store_cases", 10)
 		r.Require("failed_stores_observed", 12)
 		r.Require("failed_store_successful_stores", 4)
